@@ -1,6 +1,6 @@
 """Property -> rule families.  Each entry is a list of callables taking the Run context."""
 import rf_alloc, rf_state, rf_tables, rf_sig, rf_union, rf_flow, rf_vocab, rf_mir2c, rf_code, rf_bounds, rf_fold, rf_proto, rf_dispatch, rf_keys, rf_abi, rf_x86, rf_inline, rf_templates
-import rf_iface
+import rf_iface, rf_callmode
 from lib import facts as F
 
 
@@ -37,6 +37,7 @@ def c15_rf17(run):
 def c15_rf19(run):
     rf_tables.rf19_mem(run)
     run.min_instances('RF19', 150)
+    rf_callmode.rf19c(run)
 
 
 def c15_rf16h(run):
@@ -259,6 +260,8 @@ def c06_rf11(run):
 def c05_rf12(run):
     rf_keys.rf12(run)
     run.min_instances('RF12', 25)
+    rf_keys.rf12b(run)
+    run.min_instances('RF12b', 100)
 
 
 def c05_rf10(run):
